@@ -68,3 +68,12 @@ Print Assumptions C15_leading_yield_skipped.
 (* non-vacuity: three devmod messages are a well-formed state and drain completely under an awkward schedule *)
 Example C15_example_wf : wf_state ex_st.
 Proof. exact ex_wf. Qed.
+
+(* the message as a whole: exchangeServiceInfo hands the round the negotiated size minus 5; whatever the number of KVs, the
+   encoded TO2.DeviceServiceInfo [IsMoreServiceInfo, [KV...]] then fits the negotiated size (kind chunk.exchange runs
+   exchangeServiceInfo itself and measures whole messages filled to the brim with 0..1000 KVs) *)
+Theorem C15_message_fits : forall st mtu kvs more st',
+  wf_state st -> (5 <= mtu < 65536)%Z -> round st (exchange_budget mtu) = RRound kvs more st' ->
+  (message_size kvs <= mtu)%Z.
+Proof. exact message_fits. Qed.
+Print Assumptions C15_message_fits.
